@@ -32,11 +32,13 @@ def d3_scale_bilinear(domain, _range, uninterpolate, interpolate):
 
 
 def d3_uninterpolateNumber(a, b):
-    return lambda x: (x - a) / (b - a)
+    b = (b - a) or math.inf
+    return lambda x: (x - a) / b
 
 
 def d3_uninterpolateClamp(a, b):
-    return lambda x: max(0, min(1, (x - a) / (b - a)))
+    b = (b - a) or math.inf
+    return lambda x: max(0, min(1, (x - a) / b))
 
 
 def d3_interpolate(a, b):
@@ -135,6 +137,8 @@ def d3_scale_linearTickFormat(domain, m, fmt=None):
 
 
 def d3_scale_linearPrecision(value):
+    if not value:
+        return 0
     return -math.floor(math.log(value) / math.log(10) + 0.01)
 
 
